@@ -170,7 +170,8 @@ func CheckC12(c C12Case, rec *Rec) error {
 	if _, err = net.ForwardSteps(steps); err != nil {
 		return fmt.Errorf("Network.ForwardSteps(%d) (depth %d): %v", steps, depth, err)
 	}
-	if err = compareOutputs(fmt.Sprintf("Network.ForwardSteps(%d)", steps), net.ReadOutputs(), ref); err != nil {
+	heldStd := net.ReadOutputs()
+	if err = compareOutputs(fmt.Sprintf("Network.ForwardSteps(%d)", steps), heldStd, ref); err != nil {
 		return err
 	}
 	var ref2 *evalResult
@@ -196,6 +197,10 @@ func CheckC12(c C12Case, rec *Rec) error {
 			return fmt.Errorf("Network.ForwardSteps(%d) (second vector): %v", steps, err)
 		}
 		if err = compareOutputs(fmt.Sprintf("second input vector on the same network, Network.ForwardSteps(%d)", steps), net.ReadOutputs(), *ref2); err != nil {
+			return err
+		}
+		// the outputs read after the first evaluation are values of their own
+		if err = compareOutputs("outputs of the first evaluation, read again after the second one (Network)", heldStd, ref); err != nil {
 			return err
 		}
 	}
@@ -256,7 +261,8 @@ func CheckC12(c C12Case, rec *Rec) error {
 		if err = r.f(solver); err != nil {
 			return fmt.Errorf("%s: %v", r.name, err)
 		}
-		if err = compareOutputs(r.name, solver.ReadOutputs(), ref); err != nil {
+		heldFast := solver.ReadOutputs()
+		if err = compareOutputs(r.name, heldFast, ref); err != nil {
 			return err
 		}
 		if ref2 != nil {
@@ -272,6 +278,9 @@ func CheckC12(c C12Case, rec *Rec) error {
 				return fmt.Errorf("%s (second vector): %v", r.name, err)
 			}
 			if err = compareOutputs("second input vector on the same solver, "+r.name, solver.ReadOutputs(), *ref2); err != nil {
+				return err
+			}
+			if err = compareOutputs("outputs of the first evaluation, read again after the second one, "+r.name, heldFast, ref); err != nil {
 				return err
 			}
 		}
